@@ -38,7 +38,7 @@ def describe(tier):
             f"(contents <= {L2}), 3 literals (contents <= 1) and 4 literals (contents from a 4-menu) x every separator spelling {[s.decode() for s in SEPS]} x 4 spacings "
             "(none, spaces, VB line continuation, tab) x 3 embeddings; every chain of 2 and 3 literals, every reversal and every replacement over the markup-like contents "
             f"{[w.decode() for w in WORDS]}; padding runs of 100..5000 blanks / underscores / tabs / continuations around every operator spelling. Reversal: reverse(/reversed(/StrReverse( x inner spacing x every literal. "
-            "JS regex patterns that contain quote characters (the pattern is not a literal). Replacement: 4 dialects (the JS regex dialect with every flag set of {'', g, i, gi, m, gim}) x (x, a, b) over the same literal set with non-empty a (overlapping occurrences such as aaa/aa, b containing a, "
+            "Operand relations: 7 subjects x every pattern that is a substring (<= 5 bytes) of the subject or its swapcase / upper / lower / reverse / one-byte extension x 4 replacements x 4 dialects. JS regex patterns that contain quote characters (the pattern is not a literal). Replacement: 4 dialects (the JS regex dialect with every flag set of {'', g, i, gi, m, gim}) x (x, a, b) over the same literal set with non-empty a (overlapping occurrences such as aaa/aa, b containing a, "
             "empty b) x spacing. Each expression is given to the dialect's decoder; the COMPLETE result list must equal the single expected node "
             "(type, label, value from Python semantics on the unquoted contents: join / [::-1] / bytes.replace, span = whole expression). Every chain "
             "is also scanned with the shipped registry and the expected node must be present at the expression's absolute span. "
@@ -61,6 +61,7 @@ def plan(tier, seed):
     units += [("cat3", tier), ("cat4", tier), ("catlong", tier), ("jsquoted", tier), ("rev", tier)]
     units += [("repl", tier, d, i) for d in range(4) for i in range(len(CH) + 1)]
     units += [("words", tier, i) for i in range(len(WORDS))]
+    units += [("relations", tier, d) for d in range(4)]
     units += core.interp_axis([("cat4", tier), ("jsquoted", tier), ("words", tier, 0), ("catlong", tier)])
     return units
 
@@ -250,6 +251,32 @@ def run_unit(unit, rec):
                     expect_one(rec, "C15.replace", fn, data, (typ, x.replace(a, b), lab, 4, 4 + len(expr)),
                                {"kind": "repl", "dialect": d, "data": data, "x": x, "a": a, "b": b, "flags": b"g", "spell": 0, "start": 4, "end": 4 + len(expr)}, scan=False)
         rec.sample({"family": "markup-like-contents", "first": first, "expressions": n})
+    elif kind == "relations":
+        # a relation BETWEEN the operands: the pattern is a case variant / the reverse / a prefix / a suffix / an overlapping repeat of what the
+        # subject holds; 'every occurrence of a' means the exact byte string a
+        d = unit[2]
+        n = 0
+        subjects = [b"Hello hELLo", b"aAaA", b"abcABCabc", b"xyzzyx", b"aaa", b"AbBa-abba", b"Zz"]
+        for x in subjects:
+            pats = set()
+            for i in range(len(x)):
+                for j in range(i + 1, min(len(x), i + 5) + 1):
+                    sub = x[i:j]
+                    pats.update({sub, sub.swapcase(), sub.upper(), sub.lower(), sub[::-1], sub + sub[:1]})
+            for a in sorted(pats):
+                if d == 3 and any(ch in JS_META for ch in a):
+                    continue
+                for b in (b"", b"X", a.swapcase(), a + a):
+                    for q in (b'"', b"'"):
+                        expr, fn, typ, lab = repl_expr(d, x, a, b, q, SPACING[0], b"g", SPELLINGS[0])
+                        data = b"v = " + expr + b";"
+                        val = x.replace(a, b)
+                        n += 1
+                        if val != x:
+                            rec.mark("nontrivial", data, True)
+                        expect_one(rec, "C15.replace", fn, data, (typ, val, lab, 4, 4 + len(expr)),
+                                   {"kind": "repl", "dialect": d, "data": data, "x": x, "a": a, "b": b, "flags": b"g", "spell": 0, "start": 4, "end": 4 + len(expr), "q": q}, scan=(n % 17 == 0))
+        rec.sample({"family": "operand-relations-" + DIALECTS[d], "expressions": n})
     elif kind == "cat4":
         menu = [b"a", b"", b"+b", b" "]
         n = run_cat(rec, itertools.product(menu, repeat=4), lambda k: [(b'"',) * k, (b"'",) * k, (b'"', b"'") * (k // 2)], tier)
